@@ -9,6 +9,9 @@
              tag 7  model step = None on the implementation's action
              tag 8  the action taken is outside the model mask
              tag 11 / 12 / 13 / 14  final start_times / finish_times / ma_assignment / reward differ
+             tag 20  c_keys has the wrong length (it is empty = not recorded, or 1 + number of steps)
+             tag 21 .. 28  bookkeeping of the state after step k (k = 0: after reset) differs from the model:
+                    time / busy_until / next_op / job_in_process / job_done / op_scheduled / start_times / finish_times
      spec  : 0 = valid_scheduleb holds of the implementation's own final schedule with makespan = -reward,
              6 = it does not,  5 = no final schedule recorded (episode not finished)
      notwf : 1 = the instance fails wfb / solvableb (/ jssp_wfb): outside the theorems *)
@@ -18,13 +21,18 @@ Import ListNotations.
 
 Record fjsp_final := mkfin {
   f_start : list Z; f_finish : list Z; f_assign : list (list bool); f_reward : Z }.
+(* the bookkeeping keys of the TensorDict that the model has a counterpart for, after reset / after a step *)
+Record fjsp_keys := mkkeys {
+  k_time : Z; k_busy : list Z; k_next : list nat; k_inproc : list bool; k_jdone : list bool;
+  k_sched : list bool; k_start : list Z; k_finish : list Z }.
 Record fjsp_case := mkcase {
   c_jssp : bool;                               (* JSSPEnv (true) or FJSPEnv (false) *)
   c_cfg : bool;                                (* mask_no_ops *)
   c_inst : inst;
   c_mask0 : list bool;                         (* impl action_mask after reset *)
   c_steps : list (nat * list bool * bool);     (* action taken, impl action_mask after it, impl done after it *)
-  c_final : option fjsp_final }.
+  c_final : option fjsp_final;
+  c_keys : list fjsp_keys }.                   (* [] = not recorded; else after reset :: after every step *)
 
 Definition m_maskb (jssp cfg : bool) i s a := if jssp then jssp_maskb cfg i s a else maskb cfg i s a.
 Definition m_masklen (jssp : bool) i := if jssp then 1 + nJ i else 1 + nJ i * nM i.
@@ -50,6 +58,21 @@ Fixpoint list_eqb {A} (eqb : A -> A -> bool) (l1 l2 : list A) : bool :=
   | _, _ => false
   end.
 
+(* time, busy_until, next_op, job_in_process, job_done, op_scheduled, start_times, finish_times of the TensorDict vs the model state *)
+Definition check_keys (s : st) (q : fjsp_keys) (k : Z) : Z :=
+  if negb (k_time q =? time s)%Z then (1000 * k + 21)%Z
+  else if negb (list_eqb Z.eqb (k_busy q) (busy_until s)) then (1000 * k + 22)%Z
+  else if negb (list_eqb Nat.eqb (k_next q) (next_op s)) then (1000 * k + 23)%Z
+  else if negb (list_eqb Bool.eqb (k_inproc q) (job_in_process s)) then (1000 * k + 24)%Z
+  else if negb (list_eqb Bool.eqb (k_jdone q) (job_done s)) then (1000 * k + 25)%Z
+  else if negb (list_eqb Bool.eqb (k_sched q) (op_scheduled s)) then (1000 * k + 26)%Z
+  else if negb (list_eqb Z.eqb (k_start q) (start_times s)) then (1000 * k + 27)%Z
+  else if negb (list_eqb Z.eqb (k_finish q) (finish_times s)) then (1000 * k + 28)%Z
+  else 0%Z.
+(* head of the recorded keys (if any were recorded) against the state, and the keys left for the following steps *)
+Definition check_keys_hd (s : st) (keys : list fjsp_keys) (k : Z) : Z * list fjsp_keys :=
+  match keys with [] => (0%Z, []) | q :: r => (check_keys s q k, r) end.
+
 Definition check_final i s (f : option fjsp_final) (k : Z) : Z :=
   match f with
   | None => 0%Z
@@ -63,7 +86,8 @@ Definition check_final i s (f : option fjsp_final) (k : Z) : Z :=
            end
   end.
 
-Fixpoint check_steps (jssp cfg : bool) i s (steps : list (nat * list bool * bool)) (f : option fjsp_final) (k : Z) : Z :=
+Fixpoint check_steps (jssp cfg : bool) i s (steps : list (nat * list bool * bool)) (f : option fjsp_final)
+         (keys : list fjsp_keys) (k : Z) : Z :=
   match steps with
   | [] => check_final i s f k
   | (a, im, idone) :: rest =>
@@ -72,7 +96,11 @@ Fixpoint check_steps (jssp cfg : bool) i s (steps : list (nat * list bool * bool
            | None => (1000 * k + 7)%Z
            | Some s' =>
                let c := check_obs jssp cfg i s' im idone (k + 1) in
-               if (c =? 0)%Z then check_steps jssp cfg i s' rest f (k + 1) else c
+               if (c =? 0)%Z then
+                 match check_keys_hd s' keys (k + 1) with
+                 | (ck, keys') => if (ck =? 0)%Z then check_steps jssp cfg i s' rest f keys' (k + 1) else ck
+                 end
+               else c
            end
   end.
 
@@ -80,7 +108,12 @@ Definition check_corr (c : fjsp_case) : Z :=
   let i := c_inst c in
   let s0 := reset i in
   let c0 := check_obs (c_jssp c) (c_cfg c) i s0 (c_mask0 c) false 0 in
-  if (c0 =? 0)%Z then check_steps (c_jssp c) (c_cfg c) i s0 (c_steps c) (c_final c) 0 else c0.
+  if (c0 =? 0)%Z then
+    if negb ((length (c_keys c) =? 0) || (length (c_keys c) =? S (length (c_steps c)))) then 20%Z
+    else match check_keys_hd s0 (c_keys c) 0 with
+         | (ck, keys') => if (ck =? 0)%Z then check_steps (c_jssp c) (c_cfg c) i s0 (c_steps c) (c_final c) keys' 0 else ck
+         end
+  else c0.
 
 (* the property's executable specification on the IMPLEMENTATION's own outputs *)
 Definition check_spec (c : fjsp_case) : Z :=
@@ -98,15 +131,97 @@ Definition check_C07_fjsp (c : fjsp_case) : Z :=
   (check_corr c + 1000000 * check_spec c + 10000000 * check_wf c)%Z.
 
 (* self-test: the example of Env/FJSP.v as a case, and a corrupted copy *)
-Definition ex_case (fin2 : Z) : fjsp_case :=
+Definition ex_case_k (fin2 : Z) (keys : list fjsp_keys) : fjsp_case :=
   mkcase false true ex_i
     [false; true; false; false; false]
     [ (1, [false; false; false; false; true], false);
       (4, [false; false; true; false; false], false);
       (2, [true; false; false; false; false], true) ]
     (Some (mkfin [0; 3; 0; 0]%Z [3; 5; fin2; 9999]%Z
-                 [[true; false; false; false]; [false; true; true; false]] (-5)%Z)).
+                 [[true; false; false; false]; [false; true; true; false]] (-5)%Z))
+    keys.
+Definition ex_case (fin2 : Z) : fjsp_case := ex_case_k fin2 [].
 Example ex_case_agrees : check_C07_fjsp (ex_case 2) = 0%Z.
 Proof. vm_compute. reflexivity. Qed.
 Example ex_case_detects : check_C07_fjsp (ex_case 3) = 6003012%Z.
 Proof. vm_compute. reflexivity. Qed.
+(* the same episode with its bookkeeping: after reset; A0 on M0; B0 on M1 (clock jumps to 2, B done, M1 free);
+   A1 on M1 at t = 3 (clock jumps 2 -> 3 -> 5, everything done) *)
+Definition ex_keys (t3 : Z) : list fjsp_keys :=
+  [ mkkeys 0 [0; 0]%Z [0; 2] [false; false] [false; false] [false; false; false; false] [0; 0; 0; 0]%Z [9999; 9999; 9999; 9999]%Z;
+    mkkeys 0 [3; 0]%Z [0; 2] [true; false] [false; false] [true; false; false; false] [0; 0; 0; 0]%Z [3; 9999; 9999; 9999]%Z;
+    mkkeys 3 [3; 2]%Z [1; 2] [false; false] [false; true] [true; false; true; false] [0; 0; 0; 0]%Z [3; 9999; 2; 9999]%Z;
+    mkkeys t3 [3; 5]%Z [1; 2] [false; false] [true; true] [true; true; true; false] [0; 3; 0; 0]%Z [3; 5; 2; 9999]%Z ].
+Example ex_keys_agree : check_C07_fjsp (ex_case_k 2 (ex_keys 5)) = 0%Z.
+Proof. vm_compute. reflexivity. Qed.
+Example ex_keys_detect : check_C07_fjsp (ex_case_k 2 (ex_keys (-5))) = 3021%Z /\ check_C07_fjsp (ex_case_k 2 (tl (ex_keys 5))) = 20%Z.
+Proof. vm_compute. split; reflexivity. Qed.
+
+(* ================================================================ FJSPEnv / JSSPEnv (stepwise_reward = True)
+   The dense reward of _step:  td["reward"] = -(lbs.max(1) - td["lbs"].max(1)),  lbs = calc_lower_bound(td).
+   calc_lower_bound (float means over the eligible machines, waiting offsets, the 9999 marker) is NOT modelled; what the
+   property needs is that it is a potential whose value in the final state is the makespan (Env/SchedStepwise.v proves the
+   telescoping identity for ANY such potential); that the real lower bound is one is tied here, case by case:
+     sw_L = scale * lbs.max(1) after reset and after every step, sw_r = scale * td["reward"] after every step (scale = a
+     power of two making every float an integer), sw_tol = the float32 rounding allowance per step (0 when every value is
+     a multiple of 1/64 below 2^17, where float32 subtraction is exact), sw_sparse = env.get_reward(td, actions).
+   Result codes 1000 * step + tag:
+      4  (concrete) initial lower bound minus the sum of the step rewards is not the makespan of the induced schedule
+     17  a step reward is not minus the change of the maximal lower bound      18  final lower bound is not the makespan
+      5  the sparse reward is not minus the makespan     19  malformed record     2 / 7 / 12 / 20 / 21 as in HC0234_fjsp.v *)
+Record sw_obs := mksw { sw_scale : Z; sw_L : list Z; sw_r : list Z; sw_tol : Z; sw_sparse : Z }.
+Definition sw_case := (bool * bool * inst * list nat * sw_obs)%type.
+
+Fixpoint sw_run (jssp cfg : bool) i s (acts : list nat) (k : Z) : Z + st :=
+  match acts with
+  | [] => inr s
+  | a :: r => if negb (m_maskb jssp cfg i s a) then inl (1000 * k + 2)%Z
+              else match m_step jssp cfg i s a with
+                   | None => inl (1000 * k + 7)%Z
+                   | Some s' => sw_run jssp cfg i s' r (k + 1)%Z
+                   end
+  end.
+Fixpoint sw_zsum (l : list Z) : Z := match l with [] => 0%Z | x :: r => (x + sw_zsum r)%Z end.
+(* r_t = -(L_t - L_(t-1)) within tol, for t = 1, 2, ...: first offending step or 0 *)
+Fixpoint sw_steps_ok (prev : Z) (Ls rs : list Z) (tol : Z) (k : Z) : Z :=
+  match Ls, rs with
+  | L :: Ls', r :: rs' => if (Z.abs (r + (L - prev)) <=? tol)%Z then sw_steps_ok L Ls' rs' tol (k + 1)%Z else (1000 * k + 17)%Z
+  | _, _ => 0%Z
+  end.
+Definition check_stepwise (c : sw_case) : Z :=
+  match c with (jssp, cfg, i, acts, o) =>
+    if negb (wfb i && solvableb i && (negb jssp || jssp_wfb i)) then 20%Z
+    else match sw_run jssp cfg i (reset i) acts 0 with
+         | inl code => code
+         | inr s =>
+             if negb (done s) then 12%Z
+             else match reward i s with
+                  | None => 21%Z
+                  | Some mr =>
+                      let mk := (- mr)%Z in
+                      if negb (valid_scheduleb (sinst_of i) (schedule_of s) mk) then 21%Z
+                      else match sw_L o with
+                           | [] => 19%Z
+                           | L0 :: Ls =>
+                               let T := Z.of_nat (length acts) in
+                               if negb ((length Ls =? length acts) && (length (sw_r o) =? length acts) && (0 <? sw_scale o)%Z
+                                        && (0 <=? sw_tol o)%Z) then 19%Z
+                               else if negb (Z.abs (L0 - sw_zsum (sw_r o) - sw_scale o * mk) <=? sw_tol o * T)%Z then 4%Z
+                               else let c17 := sw_steps_ok L0 Ls (sw_r o) (sw_tol o) 1 in
+                                    if negb (c17 =? 0)%Z then c17
+                                    else if negb (last Ls L0 =? sw_scale o * mk)%Z then 18%Z
+                                    else if negb (sw_sparse o =? mr)%Z then 5%Z else 0%Z
+                           end
+                  end
+         end
+  end.
+
+(* self-test on the example episode [1; 4; 2] of Env/FJSP.v (makespan 5), with a made-up potential 6, 6, 5.5, 5 (scale 2):
+   rewards 0, 0.5, 0.5; then the same rewards with the sign convention of the step reward flipped *)
+Example stepwise_selftest :
+  check_stepwise (false, true, ex_i, [1; 4; 2], mksw 2 [12; 12; 11; 10]%Z [0; 1; 1]%Z 0 (-5)) = 0%Z /\
+  check_stepwise (false, true, ex_i, [1; 4; 2], mksw 2 [12; 12; 11; 10]%Z [-24; -23; -21]%Z 0 (-5)) = 4%Z /\
+  check_stepwise (false, true, ex_i, [1; 4; 2], mksw 2 [12; 12; 11; 10]%Z [0; 2; 0]%Z 0 (-5)) = 2017%Z /\
+  check_stepwise (false, true, ex_i, [1; 4; 2], mksw 2 [14; 14; 13; 12]%Z [0; 1; 1]%Z 0 (-5)) = 4%Z /\
+  check_stepwise (false, true, ex_i, [1; 4; 2], mksw 2 [12; 12; 11; 10]%Z [0; 1; 1]%Z 0 (-6)) = 5%Z.
+Proof. vm_compute. repeat split; reflexivity. Qed.
